@@ -191,6 +191,7 @@ func runC09(rt *rapid.T, st *stats.Collector) {
 	}
 
 	e := newEnv(serverRev)
+	e.warm = rapid.SampledFrom(warmKinds).Draw(rt, "earlier-exchange")
 	defer e.conn.ForceClose()
 	if !withResult {
 		e.srv.Steps = append(e.srv.Steps, itemStep(headerItem(cols), simnet.AfterQuery(1), comp.Method, nil))
@@ -332,6 +333,7 @@ func runC09(rt *rapid.T, st *stats.Collector) {
 	if huge {
 		st.Label("block-over-1MiB")
 	}
+	st.Label("earlier-exchange:" + e.warm)
 	if zc {
 		st.Label("zero-copy-column")
 	}
